@@ -163,6 +163,7 @@ type World struct {
 	events  []Event
 	mgrs    []*allocation.Manager
 	stepNo  int
+	extraClientSocks []*sim.UDPSock
 	curOp   string
 	model   *Model
 	closed  bool
